@@ -34,7 +34,8 @@ type Query {
 }
 interface Node { id: ID! }
 interface Named implements Node { id: ID! name: String! }
-type User implements Node & Named { id: ID! name: String! age: Int score: Float active: Boolean! color: Color colors: [Color!]! friends: [User!] bestFriend: User pet: Dog related: Node fav: Thing }
+interface Aged { age: Int }
+type User implements Node & Named & Aged { id: ID! name: String! age: Int score: Float active: Boolean! color: Color colors: [Color!]! friends: [User!] bestFriend: User pet: Dog related: Node fav: Thing }
 type Bot implements Node & Named { id: ID! name: String! model: String! version: Int! }
 type Dog implements Node { id: ID! barks: Boolean! owner: User }
 union Thing = User | Bot | Dog
@@ -60,12 +61,12 @@ FRAGS_ABS = {
 ITEMS_NODE = [
     "id", "nid: id", "__typename", "... on User { name age }", "... on User { uname: name color }", "... on Bot { model }",
     "... on Dog { barks }", "... on Named { name }", "... on Node { id }", "...NodeF", "...NamedF", "...UserF", "...BotF",
-    "...ThingF", "...NodeInlF", "... on User { ...UserF }", "... on User { bestFriend { id } }", "... { id }", "kind: __typename", "...NodeInl2F", "...ThingUF",
+    "...ThingF", "...NodeInlF", "... on User { ...UserF }", "... on User { bestFriend { id } }", "... { id }", "kind: __typename", "...NodeInl2F", "...ThingUF", "... on Aged { age }",
 ]
 ITEMS_THING = [
     "__typename", "... on User { name age }", "... on Bot { model }", "... on Dog { barks }", "... on Named { name }",
     "... on Node { id }", "...NodeF", "...UserF", "...ThingF", "...DogF", "... on User { id fav { __typename } }",
-    "... on Dog { owner { name } }", "kind: __typename", "...ThingUF", "...NodeInl2F",
+    "... on Dog { owner { name } }", "kind: __typename", "...ThingUF", "...NodeInl2F", "... on Aged { age }",
 ]
 ITEMS_USER = [
     "id", "name", "n2: name", "age", "score", "active", "color", "colors", "__typename", "friends { id }", "bestFriend { name }",
@@ -86,8 +87,9 @@ TARGETS = [
 # combinations that are always part of the family (not left to sampling): an inline fragment together with a named spread on a
 # different implementing type, a spread on the position's own type together with one on a subtype, nested spreads + plain fields
 MUST_NODE = [("id", "... on Bot { model }", "...UserF"), ("... on User { name age }", "...BotF"), ("... on Dog { barks }", "...UserF", "...BotF"),
-             ("...NodeF", "...UserF"), ("...NodeF", "... on Bot { model }"), ("...NamedF", "...BotF", "id"), ("...NodeInl2F", "...BotF")]
-MUST_THING = [("... on Bot { model }", "...UserF"), ("... on User { name age }", "...DogF"), ("...ThingUF", "...DogF"), ("... on Named { name }", "...DogF")]
+             ("...NodeF", "...UserF"), ("...NodeF", "... on Bot { model }"), ("...NamedF", "...BotF", "id"), ("...NodeInl2F", "...BotF"),
+             ("id", "... on Aged { age }"), ("... on Aged { age }", "... on Bot { model }")]
+MUST_THING = [("... on Bot { model }", "...UserF"), ("... on User { name age }", "...DogF"), ("...ThingUF", "...DogF"), ("... on Named { name }", "...DogF"), ("... on Aged { age }", "...DogF")]
 MUST_USER = [("...UserF", "...NodeF", "id"), ("...UserDeepF", "pet { barks }"), ("...NestF", "...NamedF"), ("related { ... on Bot { model } }", "related { id }")]
 
 
@@ -314,6 +316,18 @@ def inputs_schema(depth: int) -> str:
         "  o: Leaf = {a: 1}, req: Int!, lo: [Int] = [1, null] }\n"
         + "\n".join(lines) + "\n"
     )
+
+
+def inputs_scalar_schema(depth: int) -> Tuple[str, dict, dict]:
+    """input types over *configured* custom scalars (with / without serialize): -> (sdl, scalars config, value domains)"""
+    lines = []
+    for kind, base in (("Stamp", "Stamp"), ("Hex", "Hex")):
+        fl = [f"  w{i}: {tpl.replace('T', base)}" for i, tpl in enumerate(wrapper_stacks(depth))]
+        lines.append(f"input W{kind} {{\n" + "\n".join(fl) + "\n}")
+    sdl = ("type Query { ping(a: WStamp, b: WHex, m: MixS): Int }\nscalar Stamp\nscalar Hex\n"
+           "input MixS { s: Stamp, rs: Stamp!, h: Hex, rh: Hex!, ls: [Stamp], lh: [Hex!], inner: MixS, ds: Stamp = \"d\" }\n" + "\n".join(lines) + "\n")
+    scalars = {"Stamp": {"type": "str", "serialize": "json.dumps"}, "Hex": {"type": "int"}}
+    return sdl, scalars, {"Stamp": "str", "Hex": "int"}
 
 
 # ---------------------------------------------------------------------------------------------------
